@@ -220,6 +220,11 @@ func registerStdModels() {
 		return mkInt(int64(cnt))
 	})
 	reg("internal/bytealg.Equal bytes.Equal", func(it *Interp, fr *frame, fn *ssa.Function, args []Value) Value {
+		if a, ok := args[0].(Slice); ok {
+			if b, ok := args[1].(Slice); ok {
+				return it.valsEqual(a.a, b.a)
+			}
+		}
 		return strEq(strFromBytes(anyBytes(args[0])), strFromBytes(anyBytes(args[1])))
 	})
 	reg("internal/bytealg.CompareString internal/bytealg.Compare strings.Compare bytes.Compare cmp.Compare[string]", func(it *Interp, fr *frame, fn *ssa.Function, args []Value) Value {
